@@ -67,11 +67,11 @@ def plan(tier, seed):
         "nshards": 16,
         "max_par": _max_par(),
         "params": {
-            "soft_s": 420 if quick else 3000,
+            "soft_s": 1500 if quick else 5000,
             "placements": 2 if quick else 8,
             "nsets": 8 if quick else 48,
         },
-        "hard_timeout_s": 900 if quick else 5400,
+        "hard_timeout_s": 2700 if quick else 9000,
     }
 
 
